@@ -92,7 +92,7 @@ def createdBy (evs : List BEv) (before : List Snap) (v : VEnt) : Bool :=
     | .delete _ => false
 
 /-- per-entry comparison of what is on disk afterwards with the view entry -/
-def entryMatches (o : SyncOpt) (evs : List BEv) (before after : List Snap) (view : List VEnt) (v : VEnt) (a : Snap) : SpecVerdict := Id.run do
+def entryMatches (o : SyncOpt) (evs : List BEv) (plain : List Path) (before after : List Snap) (view : List VEnt) (v : VEnt) (a : Snap) : SpecVerdict := Id.run do
   let s := applyRFilter o v.st
   let d := a.st
   if d.mode != s.mode then return ⟨false, "mode/type differs"⟩
@@ -112,7 +112,7 @@ def entryMatches (o : SyncOpt) (evs : List BEv) (before after : List Snap) (view
         | some l =>
           -- the hard-link exception: an entry that was compared as a plain file (see `lowerObs`) and found unchanged keeps
           -- its inode and bytes
-          let keptAsIs := !created && (obsPlain o before after view).contains v.st.path &&
+          let keptAsIs := !created && plain.contains v.st.path &&
             (match findSnap before v.st.path with | some b => b.ino = a.ino && b.sha = a.sha | none => false)
           if a.sha != l.sha && !keptAsIs then return ⟨false, "file bytes differ"⟩
         | none => return ⟨false, "link source not in the view"⟩
@@ -125,11 +125,12 @@ def entryMatches (o : SyncOpt) (evs : List BEv) (before after : List Snap) (view
 /-- C01: destination tree = view (non-merge) / overlay (merge) -/
 def specSync (o : SyncOpt) (before after : List Snap) (view : List VEnt) : SpecVerdict := Id.run do
   let evs := syncEvents o before after view
+  let plain := obsPlain o before after view
   for v in view do
     match findSnap after v.st.path with
     | none => return ⟨false, "view entry missing in the destination"⟩
     | some a =>
-      let r := entryMatches o evs before after view v a
+      let r := entryMatches o evs plain before after view v a
       if !r.ok then return r
   -- hard-link groups: same inode iff same group
   -- (symbolic links are left out: the protocol has no way to announce a hard link between symlinks — the link-name field
